@@ -38,6 +38,14 @@ lookup with default   `vars(x)` is `x.__dict__`; `if k in m: return m[k]` follow
 
 membership search   `for x in S: if x == k: break` with an `else:` suite E (and nothing else in the body, x not
                  read afterwards) is `if k not in S: E`.
+
+keyword splat    `opts = dict(a=x, b=y)` (or `{"a": x, "b": y}`), bound once and never mutated, used as
+                 `f(..., **opts)`: the call is `f(..., a=x, b=y)` when the right-hand sides are plain names /
+                 attributes / constants that are not re-bound between the definition and the call.
+
+named conditions  `flag = <comparison / isinstance / and-or-not of such>` bound once, over parameters and
+                 single-definition locals that are never re-bound, and only ever *read*: every read of `flag`
+                 is the condition itself (`unconstrained = n_const is None` ... `if unconstrained:`).
 """
 
 from __future__ import annotations
@@ -678,6 +686,141 @@ def search_loop_to_membership(tree: ast.Module) -> int:
 
     for fn in [n for n in ast.walk(tree) if isinstance(n, (ast.FunctionDef, ast.AsyncFunctionDef))]:
         fn.body = rewrite_block(fn.body, fn)
+    if count:
+        ast.fix_missing_locations(tree)
+    return count
+
+
+def expand_keyword_splat(tree: ast.Module) -> int:
+    import copy
+
+    count = 0
+
+    def plain(e):
+        if isinstance(e, (ast.Name, ast.Constant)):
+            return True
+        return isinstance(e, ast.Attribute) and plain(e.value)
+
+    for fn in [n for n in ast.walk(tree) if isinstance(n, (ast.FunctionDef, ast.AsyncFunctionDef))]:
+        stores = {}
+        for n in ast.walk(fn):
+            if isinstance(n, ast.Name) and isinstance(n.ctx, (ast.Store, ast.Del)):
+                stores[n.id] = stores.get(n.id, 0) + 1
+        params = {a.arg for a in fn.args.args + fn.args.kwonlyargs + fn.args.posonlyargs}
+        tables = {}
+        for st in ast.walk(fn):
+            if not (isinstance(st, ast.Assign) and len(st.targets) == 1 and isinstance(st.targets[0], ast.Name) and stores.get(st.targets[0].id) == 1 and st.targets[0].id not in params):
+                continue
+            v = st.value
+            pairs = None
+            if isinstance(v, ast.Call) and isinstance(v.func, ast.Name) and v.func.id == "dict" and not v.args and v.keywords and all(k.arg for k in v.keywords):
+                pairs = [(k.arg, k.value) for k in v.keywords]
+            elif isinstance(v, ast.Dict) and v.keys and all(isinstance(k, ast.Constant) and isinstance(k.value, str) and k.value.isidentifier() for k in v.keys):
+                pairs = [(k.value, val) for k, val in zip(v.keys, v.values)]
+            if pairs is None or not all(plain(val) for _, val in pairs):
+                continue
+            nm = st.targets[0].id
+            # never mutated / aliased: only used as **nm
+            uses = [n for n in ast.walk(fn) if isinstance(n, ast.Name) and n.id == nm and isinstance(n.ctx, ast.Load)]
+            splats = [k.value for c in ast.walk(fn) if isinstance(c, ast.Call) for k in c.keywords if k.arg is None and isinstance(k.value, ast.Name) and k.value.id == nm]
+            if not splats or len(uses) != len(splats):
+                continue
+            # the values must not be re-bound after the definition (parameters and single-definition locals only)
+            roots = set()
+            for _, val in pairs:
+                r = val
+                while isinstance(r, ast.Attribute):
+                    r = r.value
+                if isinstance(r, ast.Name):
+                    roots.add(r.id)
+            if any(stores.get(r, 0) > (0 if r in params else 1) for r in roots):
+                continue
+            tables[nm] = pairs
+        if not tables:
+            continue
+        for c in ast.walk(fn):
+            if not isinstance(c, ast.Call):
+                continue
+            new_kw = []
+            changed = False
+            for k in c.keywords:
+                if k.arg is None and isinstance(k.value, ast.Name) and k.value.id in tables:
+                    given = {x.arg for x in c.keywords if x.arg}
+                    for name, val in tables[k.value.id]:
+                        if name not in given:
+                            new_kw.append(ast.copy_location(ast.keyword(arg=name, value=copy.deepcopy(val)), k))
+                    changed = True
+                else:
+                    new_kw.append(k)
+            if changed:
+                c.keywords = new_kw
+                count += 1
+    if count:
+        ast.fix_missing_locations(tree)
+    return count
+
+
+def inline_named_conditions(tree: ast.Module) -> int:
+    import copy
+
+    count = 0
+
+    def is_condition(e):
+        if isinstance(e, ast.Compare):
+            return all(is_operand(x) for x in [e.left] + e.comparators)
+        if isinstance(e, ast.BoolOp):
+            return all(is_condition(v) or is_operand(v) for v in e.values) and any(is_condition(v) for v in e.values)
+        if isinstance(e, ast.UnaryOp) and isinstance(e.op, ast.Not):
+            return is_condition(e.operand)
+        if isinstance(e, ast.Call) and isinstance(e.func, ast.Name) and e.func.id in ("isinstance", "callable") and not e.keywords:
+            return all(is_operand(a) or isinstance(a, ast.Tuple) for a in e.args)
+        return False
+
+    def is_operand(e):
+        if isinstance(e, (ast.Name, ast.Constant)):
+            return True
+        if isinstance(e, ast.Attribute):
+            return is_operand(e.value)
+        if isinstance(e, ast.Tuple):
+            return all(is_operand(x) for x in e.elts)
+        return False
+
+    for fn in [n for n in ast.walk(tree) if isinstance(n, (ast.FunctionDef, ast.AsyncFunctionDef))]:
+        stores = {}
+        for n in ast.walk(fn):
+            if isinstance(n, ast.Name) and isinstance(n.ctx, (ast.Store, ast.Del)):
+                stores[n.id] = stores.get(n.id, 0) + 1
+        params = {a.arg for a in fn.args.args + fn.args.kwonlyargs + fn.args.posonlyargs}
+        flags = {}
+        for st in fn.body if True else []:
+            pass
+        for st in ast.walk(fn):
+            if isinstance(st, ast.Assign) and len(st.targets) == 1 and isinstance(st.targets[0], ast.Name) and stores.get(st.targets[0].id) == 1 and st.targets[0].id not in params and is_condition(st.value):
+                roots = {n.id for n in ast.walk(st.value) if isinstance(n, ast.Name)}
+                roots -= {"isinstance", "callable", "list", "tuple", "dict", "int", "float", "str", "bool", "set", "None", "True", "False"}
+                if all((r in params and stores.get(r, 0) == 0) for r in roots if r in params or r in stores) and not any(r not in params and r in stores for r in roots):
+                    flags[st.targets[0].id] = st
+        if not flags:
+            continue
+        defs = {id(st.targets[0]) for st in flags.values()}
+
+        class T(ast.NodeTransformer):
+            def visit_Name(self, n):
+                nonlocal count
+                if isinstance(n.ctx, ast.Load) and n.id in flags and id(n) not in defs:
+                    count += 1
+                    return ast.copy_location(copy.deepcopy(flags[n.id].value), n)
+                return n
+
+            def visit_FunctionDef(self, n):
+                if n is fn:
+                    self.generic_visit(n)
+                return n  # nested scopes keep their own view
+
+            def visit_Lambda(self, n):
+                return n
+
+        T().visit(fn)
     if count:
         ast.fix_missing_locations(tree)
     return count
